@@ -112,8 +112,8 @@ async fn startup_udp<const N: usize>(config: &ServerConfig<SslConfig>, user_mana
                         let mut dst = BytesMut::new();
                         if let Err(e) = SessionCodec::encode(&codec, (content, peer_addr, session), &mut dst) {
                             error!("[udp] encode failed; error={e}")
-                        } else {
-                            inbound.send_to(&dst, client_addr).await?;
+                        } else if let Err(e) = inbound.send_to(&dst, client_addr).await {
+                            error!("[udp] send to client failed; client={client_addr}, error={e}");
                         }
                     } else {
                         trace!("[udp] p_s_c channel closed");
@@ -128,12 +128,22 @@ async fn startup_udp<const N: usize>(config: &ServerConfig<SslConfig>, user_mana
                             match SessionCodec::<N>::decode(&codec, &mut src) {
                                 Ok(Some((content, peer_addr, session))) => {
                                     let key = session.client_session_id;
+                                    // one client's trouble must not stop the service: a failure here costs that datagram only
                                     if let Some(assoc) = net_map.get_mut(&key) {
-                                        assoc.try_send((content, peer_addr, session)).await?
+                                        if let Err(e) = assoc.try_send((content, peer_addr, session)).await {
+                                            error!("[udp] association is gone, the next packet opens a new one; client={client_addr}, error={e}");
+                                            net_map.remove(&key);
+                                        }
                                     } else {
-                                        let assoc = UdpAssociateContext::create(&session, client_addr, tx.clone()).await?;
-                                        assoc.try_send((content, peer_addr, session)).await?;
-                                        net_map.insert(key, assoc);
+                                        match UdpAssociateContext::create(&session, client_addr, tx.clone()).await {
+                                            Ok(assoc) => match assoc.try_send((content, peer_addr, session)).await {
+                                                Ok(_) => {
+                                                    net_map.insert(key, assoc);
+                                                }
+                                                Err(e) => error!("[udp] new association failed; client={client_addr}, error={e}"),
+                                            },
+                                            Err(e) => error!("[udp] create association failed; client={client_addr}, error={e}"),
+                                        }
                                     }
                                 }
                                 Ok(None) => {}
